@@ -555,6 +555,44 @@ func c08Release(c *Ctx) {
 		}
 		walk(ir.TypeKey(T)+".", T.Underlying().(*types.Struct))
 		sort.Strings(fields)
+		// a resource handed on inside close(): copied into a member of another (local) record — a list of named closers
+		// — and released through that member
+		aliases := map[string]map[string]bool{}
+		for f := range scope {
+			ir.EachInstr(f, func(_ *ssa.BasicBlock, _ int, in ssa.Instruction) {
+				st, ok := in.(*ssa.Store)
+				if !ok {
+					return
+				}
+				dst, ok := st.Addr.(*ssa.FieldAddr)
+				if !ok {
+					return
+				}
+				k2, _, _, _ := ir.FullField(dst)
+				v := st.Val
+				for {
+					if mi, ok := v.(*ssa.MakeInterface); ok {
+						v = mi.X
+						continue
+					}
+					if ci, ok := v.(*ssa.ChangeInterface); ok {
+						v = ci.X
+						continue
+					}
+					break
+				}
+				if u, ok := v.(*ssa.UnOp); ok && k2 != "" {
+					if fa, ok := u.X.(*ssa.FieldAddr); ok {
+						if k1, _, _, _ := ir.FullField(fa); k1 != "" && k1 != k2 {
+							if aliases[k1] == nil {
+								aliases[k1] = map[string]bool{}
+							}
+							aliases[k1][k2] = true
+						}
+					}
+				}
+			})
+		}
 		for _, fld := range fields {
 			n++
 			released := false
@@ -568,7 +606,7 @@ func c08Release(c *Ctx) {
 					chk := func(v ssa.Value) {
 						if u, ok := v.(*ssa.UnOp); ok {
 							if fa, ok := u.X.(*ssa.FieldAddr); ok {
-								if key, _, _, _ := ir.FullField(fa); key == fld {
+								if key, _, _, _ := ir.FullField(fa); key == fld || aliases[fld][key] {
 									released = true
 								}
 							}
